@@ -966,17 +966,21 @@ func extraC18Wave2(c *Ctx, r *Report) {
 		}
 		// the reader function: starts a goroutine that calls Read and arms time.NewTimer
 		readsOnGoroutine := false
-		for _, a := range f.AnonFuncs {
-			if invokesMethod(a, false, "Read") {
-				eachInstr(f, func(in ssa.Instruction) {
-					if g, ok := in.(*ssa.Go); ok {
-						if mc, ok := g.Call.Value.(*ssa.MakeClosure); ok && mc.Fn == ssa.Value(a) {
-							readsOnGoroutine = true
-						}
-					}
-				})
+		eachInstr(f, func(in ssa.Instruction) {
+			g, ok := in.(*ssa.Go)
+			if !ok {
+				return
 			}
-		}
+			var body *ssa.Function
+			if mc, ok := g.Call.Value.(*ssa.MakeClosure); ok {
+				body, _ = mc.Fn.(*ssa.Function)
+			} else if sc := g.Call.StaticCallee(); sc != nil && c.inRepo(sc) {
+				body = sc
+			}
+			if body != nil && body.Blocks != nil && invokesMethod(body, false, "Read") {
+				readsOnGoroutine = true
+			}
+		})
 		if !readsOnGoroutine {
 			continue
 		}
